@@ -483,6 +483,53 @@ def gen_colorder(rng, kinds=KINDS):
     return {"t": "hist", "ops": ops}
 
 
+def gen_subsetpat(rng, kinds=KINDS):
+    """A directed history: one database of 6-9 uniquely named rows (one name may occur twice) and a series of get_subset requests
+    in every shape - names repeated, rows skipped, both at once (as many repeats as skipped rows, ascending), descending,
+    contiguous runs, one name many times - each followed by a lookup in the subset."""
+    live, ops = {}, []
+
+    def emit(op):
+        ops.append(op)
+        oracle_step(live, op)
+    kind = rng.choice(kinds)
+    bits, level = rng.choice([8, 64, 1024, 2 ** 32]), rng.choice([-1, 5])
+    keys = rng.choice([[], ["pi"], ["pi", "ps"]])
+    n = rng.randint(6, 9)
+    emit({"op": "new", "id": "d0", "kind": kind, "level": level, "name": None})
+    fps = [gen_fpin(rng, kind, bits, level, keys, none_names=False) for _ in range(n)]
+    for j, f in enumerate(fps):
+        f["name"] = "r%d" % j
+    if rng.random() < 0.3:
+        fps[rng.randrange(1, n)]["name"] = "r0"
+    emit({"op": "add", "id": "d0", "fps": fps})
+    nm = [f["name"] for f in fps]
+    k = 1
+    for shape in rng.sample(["repeat+skip", "repeat+skip", "repeat+skip", "descending", "contiguous", "same", "scattered", "all"], 5):
+        i = rng.randrange(0, n - 3)
+        L = rng.randint(3, min(5, n - i))
+        if shape == "repeat+skip":
+            # L requests inside rows i .. i+L-1, ascending, first and last row present, at least one row named twice
+            inner = sorted(rng.choice(range(i, i + L)) for _ in range(L - 2))
+            pos = sorted([i] + inner + [i + L - 1])
+            if len(set(pos)) == L:
+                pos[1] = pos[0]
+        elif shape == "descending":
+            pos = list(range(i + L - 1, i - 1, -1))
+        elif shape == "contiguous":
+            pos = list(range(i, i + L))
+        elif shape == "same":
+            pos = [i] * L
+        elif shape == "scattered":
+            pos = rng.sample(range(n), L)
+        else:
+            pos = list(range(n))
+        emit({"op": "subset", "id": "d0", "out": "d%d" % k, "names": [nm[p_] for p_ in pos], "name": rng.choice([None, "sub"])})
+        emit({"op": "get_index", "id": "d%d" % k, "i": len(live["d%d" % k].rows) - 1})
+        k += 1
+    return {"t": "hist", "ops": ops}
+
+
 # --------------------------------------------------------------------------------------
 # executing a history on the implementation
 # --------------------------------------------------------------------------------------
